@@ -231,6 +231,22 @@ pub fn same_view(a: &r::P, b: &r::P) -> bool {
         && a.half == b.half
         && a.full == b.full
 }
+/// A board whose eight sets are NOT required to form a placement: make-move passes through such states (after the
+/// mover has been toggled onto a capture square and before the captured piece is toggled off, two piece sets
+/// overlap). Every state reachable by Board::xor from a placement satisfies colours-xor == pieces-xor, which is all
+/// this generator imposes (twelve arbitrary toggles).
+pub fn any_board_loose() -> Board {
+    let mut b = any_board();
+    let d: [u64; 12] = kani::any();
+    let pieces = [Piece::Pawn, Piece::Knight, Piece::Bishop, Piece::Rook, Piece::Queen, Piece::King];
+    let mut i = 0;
+    while i < 6 {
+        b.raw.xor(Color::White, pieces[i], BitBoard::from_u64(d[i]));
+        b.raw.xor(Color::Black, pieces[i], BitBoard::from_u64(d[6 + i]));
+        i += 1;
+    }
+    b
+}
 /// Contract abstraction of Board::xor for use with #[kani::stub(Board::xor, xor_contract_stub)]:
 /// assert the precondition, havoc the board, assume the postcondition — exactly what stub_verified does.
 /// The contract itself is discharged on the real body by obligation C04.xor. (Kani's `modifies`
@@ -239,7 +255,8 @@ pub fn same_view(a: &r::P, b: &r::P) -> bool {
 pub fn xor_contract_stub(b: &mut Board, color: Color, piece: Piece, diff: BitBoard) {
     assert!(diff.count() <= 2, "VERIF Board::xor called with more than two squares");
     let old = *b;
-    *b = any_board();
+    // NOT any_board(): intermediate states of make-move are not placements (see any_board_loose)
+    *b = any_board_loose();
     kani::assume(xor_post(&old, b, color, piece, diff));
 }
 
